@@ -90,7 +90,7 @@ class Check(object):
                     print("KNOWN-FINDING: property=%s %s" % (self.pid, known_keys[f.key].get("what", f.msg)))
                 continue
             new.append(f)
-        rdir = os.path.join(VERIF, "evidence", "replay")
+        rdir = os.path.join(VERIF, "evidence", "replay") if not os.environ.get("VERIF_NO_EVIDENCE") else "/tmp/verif-dev-replay"
         os.makedirs(rdir, exist_ok=True)
         for i, f in enumerate(new):
             path = os.path.join(rdir, "%s-%d.json" % (self.pid, i))
@@ -129,9 +129,10 @@ class Check(object):
             "violations": len(new),
         }
         ev["coverage"].update(self.extra)
-        os.makedirs(os.path.join(VERIF, "evidence"), exist_ok=True)
-        with open(os.path.join(VERIF, "evidence", "%s.json" % self.pid), "w") as fh:
-            json.dump(ev, fh, indent=1, default=str)
+        if not os.environ.get("VERIF_NO_EVIDENCE"):
+            os.makedirs(os.path.join(VERIF, "evidence"), exist_ok=True)
+            with open(os.path.join(VERIF, "evidence", "%s.json" % self.pid), "w") as fh:
+                json.dump(ev, fh, indent=1, default=str)
         print("%s %s: %d obligations, %d discharged, %d known finding(s), %d new violation(s), %.1fs"
               % (self.pid, self.tier, total, ok, len(printed), len(new), time.time() - self.t0))
         return 1 if new else 0
